@@ -224,6 +224,12 @@ class BuiltinMixin:
             except TypeError:
                 pass
         lx = self.lift(x)
+        if lx.cls is not None and lx.cls.__module__.startswith("statham") and hasattr(lx.cls, "__iter__"):
+            r = self.fresh_val("setofobj", kind="set")
+            r.fresh = TRUE
+            st.assume(f"(k_set {r.t})")
+            self.trusted_used.add(f"iterating a {lx.cls.__name__} object inside set() raises nothing and has no effect; the resulting set is unconstrained")
+            return [(st, r)]
         if lx.kind == "dict":
             # set(d) = set of keys
             sq = f"(ditems {asV(lx)})"
